@@ -667,6 +667,8 @@ func checkC02(c *Ctx, r *Report) {
 	ruleDeclareThenInit(c, r, "declare-then-init")
 	ruleDupScope(c, r, "dup-scope")
 	ruleFieldAccess(c, r, "field-access")
+	r.rule("operand-emission", 6, "the emission primitives write what the VM decodes: emitOp one opcode byte, emitUvarint exactly the bytes uvarintToBytes produced for the operand (a slot, a constant index, a count), emitBytes each byte once: an operand emitted in another form names another slot or constant")
+	checkEmitPrimitives(c, r, "operand-emission")
 	// an assignment is an expression: what follows '=' is a full expression again (a = b = 3)
 	ruleAssignRHS(c, r, "nested-assignment")
 	ruleVarintWrappers(c, r, "slot-operand-codec", "")
